@@ -126,4 +126,10 @@ pub mod verif_hooks {
         verif_best_split_classifier, verif_impurity, verif_which_max,
     };
     pub use crate::tree::decision_tree_regressor::verif_best_split_regressor;
+    pub use crate::tree::decision_tree_classifier::{
+        verif_split_step_classifier, VerifSplitStep as VerifSplitStepClassifier,
+    };
+    pub use crate::tree::decision_tree_regressor::{
+        verif_split_step_regressor, VerifSplitStep as VerifSplitStepRegressor,
+    };
 }
